@@ -1,11 +1,268 @@
 package main
 
 import (
+	"flag"
 	"fmt"
+	"os"
+	"path/filepath"
+	"sort"
+	"strings"
+	"sync"
+	"time"
 
-	_ "golang.org/x/tools/go/packages"
-	_ "golang.org/x/tools/go/ssa"
-	_ "golang.org/x/tools/go/ssa/ssautil"
+	"golang.org/x/tools/go/ssa"
 )
 
-func main() { fmt.Println("govc") }
+func (e *Engine) addLoadErr(s string) { e.loadErrs = append(e.loadErrs, s) }
+
+type runOpts struct {
+	repo     string
+	verifDir string
+	prop     string
+	tier     string
+	fn       string
+	dump     bool
+	timeout  time.Duration
+	jobs     int
+	noCache  bool
+	panics   bool
+	verbose  bool
+}
+
+func main() {
+	if len(os.Args) < 2 {
+		fmt.Fprintln(os.Stderr, "usage: govc check|fn|list|replay ...")
+		os.Exit(2)
+	}
+	cmd := os.Args[1]
+	fs := flag.NewFlagSet(cmd, flag.ExitOnError)
+	var o runOpts
+	fs.StringVar(&o.repo, "repo", "/repo", "repository directory")
+	fs.StringVar(&o.verifDir, "verif", "", "verification directory (default: directory containing bin/)")
+	fs.StringVar(&o.prop, "property", "", "property id")
+	fs.StringVar(&o.tier, "tier", "", "quick or thorough")
+	fs.StringVar(&o.fn, "fn", "", "function name")
+	fs.BoolVar(&o.dump, "dump", false, "dump queries of failing obligations")
+	fs.DurationVar(&o.timeout, "timeout", 0, "per-query timeout")
+	fs.IntVar(&o.jobs, "j", 6, "parallel queries (each races three solvers)")
+	fs.BoolVar(&o.noCache, "no-cache", false, "ignore the result cache")
+	fs.BoolVar(&o.panics, "panics", false, "generate panic-freedom obligations")
+	fs.BoolVar(&o.verbose, "v", false, "verbose")
+	fs.Parse(os.Args[2:])
+	if o.verifDir == "" {
+		exe, _ := os.Executable()
+		o.verifDir = filepath.Dir(filepath.Dir(exe))
+		if _, err := os.Stat(filepath.Join(o.verifDir, "properties.jsonl")); err != nil {
+			o.verifDir = "/verif"
+		}
+	}
+	if o.tier == "" {
+		o.tier = os.Getenv("VERIF_TIER")
+		if o.tier == "" {
+			o.tier = "quick"
+		}
+	}
+	if o.timeout == 0 {
+		if o.tier == "thorough" {
+			o.timeout = 60 * time.Second
+		} else {
+			o.timeout = 10 * time.Second
+		}
+	}
+	switch cmd {
+	case "check":
+		os.Exit(cmdCheck(o))
+	case "fn":
+		os.Exit(cmdFn(o))
+	case "list":
+		os.Exit(cmdList(o))
+	case "replay":
+		os.Exit(cmdReplay(o, fs.Args()))
+	default:
+		fmt.Fprintln(os.Stderr, "unknown command", cmd)
+		os.Exit(2)
+	}
+}
+
+func load(o runOpts) (*Engine, error) {
+	spec := filepath.Join(o.repo, "contracts_verif.go")
+	var paths []string
+	if _, err := os.Stat(spec); err == nil {
+		paths = append(paths, spec)
+	}
+	// assumed contracts of external functions
+	exts, _ := filepath.Glob(filepath.Join(o.verifDir, "extern", "*.spec"))
+	sort.Strings(exts)
+	paths = append(paths, exts...)
+	e, err := LoadEngine(o.repo, paths)
+	if err != nil {
+		return nil, err
+	}
+	theEngine = e
+	e.prop = o.prop
+	kf, err := LoadKnownFindings(filepath.Join(o.verifDir, "known_findings.json"))
+	if err != nil {
+		return nil, err
+	}
+	e.kf = kf
+	return e, nil
+}
+
+func cmdList(o runOpts) int {
+	e, err := load(o)
+	if err != nil {
+		fmt.Fprintln(os.Stderr, "load:", err)
+		return 2
+	}
+	for _, n := range e.sortedFuncNames() {
+		c := e.specs.Contracts[n]
+		mark := " "
+		if c != nil {
+			mark = "C"
+		}
+		fmt.Printf("%s %s (%d blocks)\n", mark, n, len(e.funcs[n].Blocks))
+	}
+	return 0
+}
+
+type checkedObl struct {
+	O *Obligation
+	R SolverResult
+}
+
+// dischargeAll runs the solver on every obligation of the units.
+func dischargeAll(e *Engine, units []*Unit, o runOpts, pool *SolverPool) []*Obligation {
+	prelude := e.FullPrelude()
+	var all []*Obligation
+	for _, u := range units {
+		all = append(all, u.obls...)
+	}
+	sem := make(chan struct{}, o.jobs)
+	var wg sync.WaitGroup
+	for _, ob := range all {
+		if ob.Goal.S == "true" || ob.PC.S == "false" {
+			ob.Status = "unsat"
+			ob.Solver = "trivial"
+			ob.Trivial = true
+			continue
+		}
+		wg.Add(1)
+		go func(ob *Obligation) {
+			defer wg.Done()
+			sem <- struct{}{}
+			defer func() { <-sem }()
+			q := e.Query(ob, prelude)
+			r := pool.Solve(q, o.timeout, o.tier == "thorough", false)
+			ob.Status = r.Status
+			ob.Solver = r.Solver
+			ob.Time = r.Time
+			ob.Model = r.Output
+		}(ob)
+	}
+	wg.Wait()
+	return all
+}
+
+func cmdFn(o runOpts) int {
+	e, err := load(o)
+	if err != nil {
+		fmt.Fprintln(os.Stderr, "load:", err)
+		return 2
+	}
+	var fns []*ssa.Function
+	if o.fn == "all" {
+		for _, n := range e.sortedFuncNames() {
+			fns = append(fns, e.funcs[n])
+		}
+	} else {
+		for _, n := range strings.Split(o.fn, ",") {
+			fn, ok := e.funcs[n]
+			if !ok {
+				fmt.Fprintln(os.Stderr, "no such function:", n)
+				return 2
+			}
+			fns = append(fns, fn)
+		}
+	}
+	var units []*Unit
+	rc := 0
+	for _, fn := range fns {
+		u, err := e.VerifyFunction(fn, o.panics)
+		if err != nil {
+			fmt.Printf("ENGINE-ERROR %v\n", err)
+			rc = 2
+			continue
+		}
+		for _, m := range u.errs {
+			fmt.Printf("SPEC-ERROR %s\n", m)
+			rc = 2
+		}
+		units = append(units, u)
+	}
+	for _, m := range e.loadErrs {
+		fmt.Printf("SPEC-ERROR %s\n", m)
+		rc = 2
+	}
+	pool := NewSolverPool(filepath.Join(o.verifDir, ".cache"), filepath.Join(o.verifDir, ".cache", "work"), !o.noCache)
+	t0 := time.Now()
+	all := dischargeAll(e, units, o, pool)
+	nOK := 0
+	for _, ob := range all {
+		if ob.Status == "unsat" {
+			nOK++
+			if o.verbose {
+				fmt.Printf("ok   %-70s %s %.2fs\n", ob.Name, ob.Solver, ob.Time)
+			}
+			continue
+		}
+		fmt.Printf("FAIL %-70s %s (%s) %.2fs %s\n", ob.Name, ob.Status, ob.Solver, ob.Time, ob.Pos)
+		if o.dump {
+			q := e.Query(ob, e.FullPrelude())
+			p := filepath.Join(os.TempDir(), "govc_"+mangle(ob.Name)+".smt2")
+			os.WriteFile(p, []byte(q), 0o644)
+			fmt.Printf("     query: %s\n", p)
+		}
+		if rc == 0 {
+			rc = 1
+		}
+	}
+	var ws []string
+	for w := range e.warnings {
+		ws = append(ws, w)
+	}
+	sort.Strings(ws)
+	for _, w := range ws {
+		fmt.Println("warning:", w)
+	}
+	fmt.Printf("%d/%d obligations discharged in %.1fs (solver wins %v, cached %d)\n", nOK, len(all), time.Since(t0).Seconds(), pool.wins, pool.cached)
+	return rc
+}
+
+// ---- property checks ----
+
+type Evidence struct {
+	PropertyID  string         `json:"property_id"`
+	Tier        string         `json:"tier"`
+	Seed        int            `json:"seed"`
+	Level       string         `json:"level"`
+	Coverage    map[string]any `json:"coverage"`
+	Assumptions []string       `json:"assumptions"`
+	WallS       float64        `json:"wall_s"`
+	Violations  int            `json:"violations"`
+}
+
+func cmdCheck(o runOpts) int {
+	t0 := time.Now()
+	if o.prop == "" {
+		fmt.Fprintln(os.Stderr, "check: --property required")
+		return 2
+	}
+	e, err := load(o)
+	if err != nil {
+		fmt.Fprintln(os.Stderr, "load:", err)
+		return 2
+	}
+	res := runProperty(e, o)
+	res.wall = time.Since(t0).Seconds()
+	return reportProperty(e, o, res)
+}
